@@ -759,11 +759,16 @@ spif_mbuff_trim(spif_mbuff_t self)
     spif_byteptr_t start, end;
 
     ASSERT_RVAL(!SPIF_MBUFF_ISNULL(self), FALSE);
+    if (self->len <= 0) {
+        /* Nothing to trim (and no byte to look at). */
+        return TRUE;
+    }
     start = self->buff;
     end = self->buff + self->len - 1;
     for (; isspace((spif_uchar_t) (*start)) && (start < end); start++);
     for (; isspace((spif_uchar_t) (*end)) && (start < end); end--);
-    if (start > end) {
+    if (isspace((spif_uchar_t) (*start))) {
+        /* start == end and that byte is blank too:  nothing but whitespace. */
         return spif_mbuff_done(self);
     }
     self->len = (spif_memidx_t) (end - start + 1);
